@@ -278,6 +278,20 @@ func (c *Ctx) c14Import() {
 			}
 		}
 	}
+	for _, p := range paths {
+		for _, g := range iterations(p) {
+			if g.overData && g.open {
+				r.Bad("R14.2", "HTTPTransfer.Import", "import-stops-early", c.Pos(p.RetPos), "Import returns from inside the loop over its caches: the caches after a refused or failed one are never requested and stay empty", shortTrace(p))
+			}
+		}
+		for _, ev := range p.Events {
+			if ev.Kind == pw.EvLoopEnd && ev.Note == "break" && ev.Loop != nil {
+				if _, isRange := ev.Loop.(*ast.RangeStmt); isRange {
+					r.Bad("R14.2", "HTTPTransfer.Import", "import-stops-early", c.Pos(ev.Pos), "Import breaks out of the loop over its caches", shortTrace(p))
+				}
+			}
+		}
+	}
 	if nRestore == 0 || nSkip == 0 {
 		r.Unknown("R14.2", "HTTPTransfer.Import", fmt.Sprintf("vacuous: %d restoring iterations, %d skipping iterations", nRestore, nSkip))
 	} else if !hasViolation(r.Obls, "R14.2", "HTTPTransfer.Import") {
@@ -377,8 +391,8 @@ func (c *Ctx) c14Register() {
 			registered := false
 			identity := false
 			for _, ev := range g.events {
-				if ev.Kind == pw.EvCall && ev.Role == "Std:gob.Register" {
-					registered = true
+				if ev.Kind == pw.EvCall && ev.Role == "Std:gob.Register" && len(ev.Args) == 1 && ev.Args[0].Kind == pw.KRangeVal {
+					registered = true // the very value passed by the caller (its dynamic type, pointer-ness included)
 				}
 				// h.Write([]byte(t.PkgPath() + t.String())): the fingerprint includes the type's identity
 				if ev.Kind == pw.EvCall && ev.Callee != nil && ev.Callee.Name() == "Write" && ev.Recv == hasher && len(ev.Args) == 1 {
@@ -401,7 +415,7 @@ func (c *Ctx) c14Register() {
 				}
 			}
 			if !registered {
-				r.Bad("R14.3", "GobRegister", "not-registered-with-gob", c.Pos(g.begin.Pos), "a new type is fingerprinted but not registered with encoding/gob: the transfer of such values fails although the hashes match", shortTrace(p))
+				r.Bad("R14.3", "GobRegister", "not-registered-with-gob", c.Pos(g.begin.Pos), "a new type is fingerprinted but the value given is not itself registered with encoding/gob (gob must know the dynamic type as passed, pointer-ness included): the transfer of such values fails or changes their type although the hashes match", shortTrace(p))
 			}
 			if !identity {
 				r.Bad("R14.3", "GobRegister", "fingerprint-without-identity", c.Pos(g.begin.Pos), "the fingerprint does not include the type's package path and name: structurally equal types cancel each other out (adding a type may leave the hash unchanged)", shortTrace(p))
